@@ -86,6 +86,68 @@ def _docstring_literal_rule(putils, g):
         g.fp(putils, d)
 
 
+def _flat_statements(fn):
+    """statements of a small function in order, compound ones as `head: body; ... else: ...`"""
+    def one(n):
+        if isinstance(n, ast.If):
+            return 'if ' + u(n.test) + ': ' + '; '.join(one(x) for x in n.body) + \
+                (' else: ' + '; '.join(one(x) for x in n.orelse) if n.orelse else '')
+        if isinstance(n, ast.Try):
+            return 'try: ' + '; '.join(one(x) for x in n.body) + ''.join(
+                ' except %s: %s' % (u(h.type) if h.type is not None else '', '; '.join(one(x) for x in h.body))
+                for h in n.handlers)
+        return u(n)
+    return [one(n) for n in fn.body if not (isinstance(n, ast.Expr) and isinstance(n.value, ast.Constant))]
+
+
+def _signature_cache(repo, helpers, g):
+    """helpers.cache_signatures (key of the time cache) and cache.signature_time_cache (its protocol):
+    what the second component of the key tuple is (match object / matched text), the validity, and both
+    functions as statement lists"""
+    cache = Src(repo, 'jedi/cache.py')
+    settings = Src(repo, 'jedi/settings.py')
+    where = 'jedi/api/helpers.py:cache_signatures'
+    cs = helpers.find('cache_signatures')
+    deco = [u(d) for d in cs.decorator_list]
+    if deco != ["signature_time_cache('call_signatures_validity')"]:
+        raise TieBroken(where + ': decorators', repr(deco))
+    tuples = [n.value for n in ast.walk(cs) if isinstance(n, ast.Yield) and isinstance(n.value, ast.Tuple)]
+    key = _one(tuples, where + ' key tuple')
+    if len(key.elts) != 3:
+        raise TieBroken(where + ': key tuple', u(key))
+    assigns = {u(n.targets[0]): n.value for n in ast.walk(cs) if isinstance(n, ast.Assign)}
+
+    def is_match(name):
+        v = assigns.get(name)
+        return isinstance(v, ast.Call) and u(v.func) == 're.match'
+    mid = key.elts[1]
+    if isinstance(mid, ast.Name) and is_match(mid.id):
+        kind = 'match-object'
+    elif isinstance(mid, ast.Call) and isinstance(mid.func, ast.Attribute) and mid.func.attr == 'group' \
+            and isinstance(mid.func.value, ast.Name) and is_match(mid.func.value.id) \
+            and [u(a) for a in mid.args] in ([], ['0']):
+        kind = 'matched-text'
+    else:
+        raise TieBroken(where + ': cannot classify the second component of the key', u(key))
+    g.define('sigKeyMid', 'String', lean_str(kind), where + ' (second component of the key tuple: %s)' % u(mid))
+    # everything but the key-tuple line (the regex, the text it runs on, the guard, the order)
+    stmts = [x.replace(u(key), '<KEY>') for x in _flat_statements(cs)]
+    g.define('cacheSignatures', 'List String', lean_list(stmts), where + ' (statements in order, key tuple as <KEY>)')
+    g.define('sigKeyOuter', 'List String', lean_list([u(key.elts[0]), u(key.elts[2])]),
+             where + ' (first and third component of the key tuple)')
+    stc = cache.find('signature_time_cache')
+    wrapper = _one([n for n in ast.walk(stc) if isinstance(n, ast.FunctionDef) and n.name == 'wrapper'],
+                   'jedi/cache.py:signature_time_cache wrapper')
+    g.define('signatureTimeCacheWrapper', 'List String', lean_list(_flat_statements(wrapper)),
+             'jedi/cache.py:signature_time_cache.wrapper (statements in order)')
+    validity = settings.const('call_signatures_validity')
+    if not isinstance(validity, (int, float)) or validity < 0 or validity * 1000 != int(validity * 1000):
+        raise TieBroken('jedi/settings.py: call_signatures_validity', repr(validity))
+    g.define('sigValidityMs', 'Nat', str(int(validity * 1000)), 'jedi/settings.py:call_signatures_validity (milliseconds)')
+    g.fp(helpers, 'cache_signatures')
+    g.fp(cache, 'signature_time_cache')
+
+
 def generate(repo, g):
     names = Src(repo, 'jedi/inference/names.py')
     sig = Src(repo, 'jedi/inference/signature.py')
@@ -177,6 +239,7 @@ def generate(repo, g):
     strs = [n.value for n in ast.walk(fn) if isinstance(n, ast.Constant) and isinstance(n.value, str)]
     g.define('docSignatureJoin', 'List String', lean_list(strs), 'jedi/api/classes.py:BaseName._get_docstring_signature')
     _docstring_literal_rule(putils, g)
+    _signature_cache(repo, helpers, g)
     for s_, d in [(names, '_ActualTreeParamName.get_kind'), (names, 'BaseTreeParamName.to_string'),
                   (names, 'BaseTreeParamName.get_public_name'), (names, '_ParamMixin._kind_string'),
                   (names, 'TreeNameDefinition.py__doc__'),
